@@ -110,7 +110,7 @@ macro_rules! op_harness {
   ($name:ident, $k:expr) => {
     #[kani::proof]
     #[kani::stub(std::hash::RandomState::new, rs_stub)]
-    #[kani::unwind(48)]
+    #[kani::unwind(64)]
     fn $name() {
       check($k, kani::any());
     }
